@@ -156,4 +156,35 @@ def run(tier, seed):
             elif raised is None or exc_class(raised) != "validation":
                 run.fail({"schema": s, "value": to_wire(v), "raised": repr(raised), "tags": ["validating-writer"]},
                          "validating writer did not raise ValidationError for a record validate rejects", kind="oracle")
+    # ---- directed probes outside the generator's reach
+    import io as _io
+    import datetime as _dt
+    from fastavro.validation import validate as _validate
+    date_union = [{"type": "int", "logicalType": "date"}, "string"]
+    for val, branch in (("hello", 1), ("2020-01-02", 0), (_dt.date(2020, 1, 2), 0)):
+        run.cov["evaluations"] += 1
+        run.tag("date-union")
+        try:
+            ok1 = _validate(val, date_union, raise_errors=False)
+            fo = _io.BytesIO()
+            fastavro.schemaless_writer(fo, date_union, val)
+            okv = ok1 is True and fo.getvalue()[0] == 2 * branch
+            got = "validate=%r first byte=%r" % (ok1, fo.getvalue()[:1])
+        except Exception as e:  # noqa
+            okv, got = False, repr(e)
+        if not okv:
+            run.fail({"schema": date_union, "value": repr(val), "got": got[:200], "tags": ["date-union"]},
+                     "a datum conforming to a branch of a union with a date type is not accepted under that branch", kind="oracle")
+    for ftype, dflt in (("bytes", "ab"), ({"type": "fixed", "name": "Fx", "size": 2}, "ab")):
+        sch = {"type": "record", "name": "R", "fields": [{"name": "i", "type": "int"}, {"name": "b", "type": ftype, "default": dflt}]}
+        run.cov["evaluations"] += 1
+        run.tag("bytes-default-omitted")
+        try:
+            okv = _validate({"i": 1}, sch, raise_errors=False) is True
+            got = "validate False"
+        except Exception as e:  # noqa
+            okv, got = False, repr(e)
+        if not okv:
+            run.fail({"schema": sch, "value": {"i": 1}, "got": got[:200], "tags": ["bytes-default-omitted"]},
+                     "omitted bytes/fixed field with a schema default: the datum does not validate", kind="oracle")
     return run.finish()
